@@ -141,10 +141,36 @@ func (o *attributeSlice) Call(c px.Context, method px.ObjFunc, args []px.Value, 
 }
 
 func (o *attributeSlice) Equals(other interface{}, g px.Guard) bool {
-	if ov, ok := other.(*attributeSlice); ok {
-		return o.typ.Equals(ov.typ, g) && px.Equals(o.values, ov.values, g)
+	if ov, ok := other.(*attributeSlice); ok && o.typ.Equals(ov.typ, g) {
+		// Compare the attributes that participate in equality (all of them unless declared otherwise). An
+		// attribute that was not given is represented by its default.
+		ai := o.typ.AttributesInfo()
+		positions := ai.EqualityAttributeIndex()
+		if len(positions) == 0 {
+			positions = make([]int, len(ai.Attributes()))
+			for i := range positions {
+				positions[i] = i
+			}
+		}
+		for _, i := range positions {
+			if !px.Equals(o.valueAt(ai, i), ov.valueAt(ai, i), g) {
+				return false
+			}
+		}
+		return true
 	}
 	return false
+}
+
+func (o *attributeSlice) valueAt(ai px.AttributesInfo, i int) px.Value {
+	if i < len(o.values) {
+		return o.values[i]
+	}
+	a := ai.Attributes()[i]
+	if a.Kind() == givenOrDerived {
+		return undef
+	}
+	return a.Value()
 }
 
 func (o *attributeSlice) String() string {
